@@ -116,6 +116,7 @@ func (g *gen) genRun() {
 		if len(post) > 0 {
 			postExpr = strings.Join(post, ` + "," + `)
 		}
+		g.line(`out = "res=?"`)
 		g.open("defer func() {")
 		g.line("r := recover()")
 		g.line(`out += " panic=" + fmtPanic(r) + " args=" + %s`, postExpr)
